@@ -1057,9 +1057,11 @@ impl<'a> CompactionIterator<'a> {
 			&& (self.snapshots.is_empty()
 				|| self.snapshots[0] >= self.accumulated_versions[0].0.seq_num());
 
-		// Check if any version is REPLACE
-		// REPLACE semantics: delete all older versions regardless of retention
-		let has_set_with_delete = self.accumulated_versions.iter().any(|(key, _)| key.is_replace());
+		// Whether a newer version of this key (one already processed by the loop
+		// below) is a REPLACE.
+		// REPLACE semantics: delete all older versions regardless of retention;
+		// versions newer than the REPLACE are not affected by it.
+		let mut below_replace = false;
 
 		// Track the visibility of the previous (newer) version we processed.
 		// Used to detect when a newer version supersedes an older one.
@@ -1138,13 +1140,13 @@ impl<'a> CompactionIterator<'a> {
 			} else if is_latest && is_replace {
 				// Latest REPLACE: not stale (will be output)
 				false
+			} else if below_replace {
+				// Newer REPLACE found: all older versions are stale
+				true
 			} else if is_hard_delete && !self.enable_versioning {
 				// Older DELETE without versioning: stale (only latest tombstone matters).
 				// With versioning it is a version like any other (retention decides
 				// below): it is the barrier that keeps the versions under it erased.
-				true
-			} else if has_set_with_delete && !is_replace {
-				// REPLACE found: all older non-REPLACE versions are stale
 				true
 			} else {
 				// Older PUT: check versioning and retention
@@ -1190,6 +1192,9 @@ impl<'a> CompactionIterator<'a> {
 
 			// Update for next iteration (this version becomes the "newer" one)
 			newer_version_visibility = Some(current_visibility);
+			if is_replace {
+				below_replace = true;
+			}
 		}
 
 		// Clear accumulated versions for the next key
